@@ -39,9 +39,9 @@ pub const SUBS: &[SubDef] = &[
 ];
 
 fn run(ctx: &Ctx) {
-    ctx.run_tape("locality", locality, ctx.pick(16_000, 800_000), 700);
-    ctx.run_tape("defrag", defrag, ctx.pick(4_000, 200_000), 1200);
-    ctx.run_tape("locality_raw", locality_raw, ctx.pick(10_000, 400_000), 96);
+    ctx.run_tape("locality", locality, ctx.pick(192_000, 800_000), 700);
+    ctx.run_tape("defrag", defrag, ctx.pick(48_000, 200_000), 1200);
+    ctx.run_tape("locality_raw", locality_raw, ctx.pick(120_000, 400_000), 96);
 }
 
 pub struct OkInfo {
